@@ -7,6 +7,7 @@ pub mod c04;
 pub mod c05;
 pub mod c09;
 pub mod c11;
+pub mod c12;
 pub mod c13;
 pub mod ustream;
 
@@ -25,6 +26,7 @@ pub fn dispatch(args: &Args, rep: &Arc<Report>) -> bool {
         "c04" => c04::run(args, rep),
         "c09" => c09::run(args, rep),
         "c11" => c11::run(args, rep),
+        "c12" => c12::run(args, rep),
         "c13" => c13::run(args, rep),
         _ => return false,
     }
